@@ -606,6 +606,9 @@ func init() {
 // c16Case: one fault-free session, then the same session (same seed, hence the same schedule up to
 // the crash point) with one or two crash points placed at drawn step numbers inside it.
 func c16Case(w *Worker, i int) {
+	if i%4 == 3 {
+		w.Exec(RunSpec{Scenario: "timeout", Index: i})
+	}
 	base := RunSpec{Scenario: "term", Index: i}
 	res := w.Exec(base)
 	if res.Steps < 2 || res.BubblePanic != "" {
@@ -625,5 +628,196 @@ func c16Case(w *Worker, i int) {
 			spec.Params["fault2"] = 1 + next(len(c16Faults)-1)
 		}
 		w.Exec(spec)
+	}
+}
+
+// ---- timeout clause: "a request whose response never arrives fails with a timeout error after the
+// read timeout of silence, and not earlier while pages of its response keep arriving" ----
+
+func init() {
+	Register(&Scenario{Name: "timeout", Property: "C16", Body: c16Timeout})
+}
+
+func c16Timeout(r *Run) {
+	const P = "C16"
+	T := r.T
+	v := []primitive.ProtocolVersion{primitive.ProtocolVersionDse2, primitive.ProtocolVersionDse1, primitive.ProtocolVersion4, primitive.ProtocolVersion5}[T.Draw("version", 4)]
+	RT := []time.Duration{12 * time.Second, 2 * time.Second, 500 * time.Millisecond}[T.Draw("readTimeout", 3)]
+	mode := T.Draw("mode", 4) // 0 silence, 1 pages with gaps < RT then silence, 2 response just before RT, 3 response just after RT
+	if !v.IsDse() && mode == 1 {
+		mode = 0
+	}
+	lat := ms([]int{0, 3}[T.Draw("latency", 2)])
+	opts := LinkOpts{Latency: lat, ChunkReads: T.Bool("chunkReads", 0.5)}
+	pages := 2 + T.Draw("pages", 4)
+	gap := time.Duration(3+T.Draw("gap10", 6)) * RT / 10 // 0.3 .. 0.8 RT
+	eps := time.Millisecond
+	K := 1 + T.Draw("concurrent", 3)
+	r.Config["version"] = v.String()
+	r.Config["readTimeout"] = RT.String()
+	r.Config["mode"] = []string{"silence", "paged-then-silence", "just-before", "just-after"}[mode]
+	r.Config["latency"] = lat.String()
+	ctx, cancel := context.WithCancel(context.Background())
+	a, b := r.Net.Pair("L", r.Net.NewClientAddr(), mustAddr("10.0.0.2:9042"), opts)
+	type obs struct {
+		tag       string
+		t0        time.Duration
+		pageAt    []time.Duration
+		endAt     time.Duration
+		endErr    error
+		closedNil bool
+		isDone    bool
+		errAfter  error
+	}
+	var all []*obs
+	finished := false
+	r.Go("main", func() {
+		cc, err := client.VerifNewClientConnection(a, ctx, nil, primitive.CompressionNone, 16, 8, RT, nil)
+		if err != nil {
+			return
+		}
+		sc, err := client.VerifNewServerConnection(b, ctx, nil, 64, 1000*time.Hour, nil, nil, func(*client.CqlServerConnection) {})
+		if err != nil {
+			return
+		}
+		r.Cleanup(func() { _ = cc.Close(); _ = sc.Close(); cancel() })
+		hs := make(doneChan)
+		r.Go("hsServer", func() { defer close(hs); _ = sc.AcceptHandshake(); r.Yield("hs.s") })
+		err = cc.InitiateHandshake(v, client.ManagedStreamId)
+		r.Yield("hs.c")
+		<-hs
+		r.Yield("hs.joined")
+		if err != nil {
+			return
+		}
+		r.Go("responder", func() {
+			for {
+				f, err := sc.Receive()
+				r.Yield("resp.recv")
+				if err != nil || f == nil {
+					return
+				}
+				ff := f
+				r.Go("answer", func() {
+					tag := queryTag(ff)
+					switch mode {
+					case 0:
+					case 1:
+						for k := 0; k < pages; k++ {
+							r.Sleep(gap)
+							// never the last page: the response "keeps arriving", then falls silent
+							_ = sc.Send(pageFrame(v, ff.Header.StreamId, tag, k, pages+1))
+							r.Yield("resp.page")
+						}
+					case 2:
+						r.Sleep(RT - eps - 2*lat)
+						_ = sc.Send(pageFrame(v, ff.Header.StreamId, tag, 0, 1))
+					case 3:
+						r.Sleep(RT + eps)
+						_ = sc.Send(pageFrame(v, ff.Header.StreamId, tag, 0, 1))
+					}
+				})
+			}
+		})
+		var wg sync.WaitGroup
+		for i := 0; i < K; i++ {
+			i := i
+			wg.Add(1)
+			r.Go(fmt.Sprintf("sender%d", i), func() {
+				defer wg.Done()
+				if i > 0 {
+					r.Sleep(time.Duration(i) * RT / 7)
+				}
+				o := &obs{tag: fmt.Sprintf("q%d", i)}
+				all = append(all, o)
+				o.t0 = r.Now()
+				req, err := cc.Send(queryFrame(v, client.ManagedStreamId, o.tag))
+				r.Yield("sender.sent")
+				if err != nil || req == nil {
+					o.endErr = err
+					return
+				}
+				for {
+					fr, err := cc.Receive(req)
+					now := r.Now() // before yielding: the instant the call returned
+					r.Yield("sender.recv")
+					if err != nil {
+						o.endAt, o.endErr = now, err
+						break
+					}
+					if fr == nil {
+						o.endAt, o.closedNil = now, true
+						break
+					}
+					o.pageAt = append(o.pageAt, now)
+				}
+				o.isDone = req.IsDone()
+				o.errAfter = req.Err()
+				r.Yield("sender.checked")
+			})
+		}
+		wg.Wait()
+		r.Yield("senders.joined")
+		finished = true
+	})
+	if !r.Drive() {
+		r.Violate(P, "liveness", "step-budget", "run did not quiesce")
+		return
+	}
+	if len(all) == 0 {
+		return
+	}
+	if !finished {
+		r.Violate(P, "timeout", "never-completes", "mode %s: a request without (further) response never completed although the read timeout is %v", r.Config["mode"], RT)
+		return
+	}
+	r.Nontrivial = true
+	for _, o := range all {
+		isTimeout := o.endErr != nil && strings.Contains(o.endErr.Error(), "timed out")
+		switch mode {
+		case 0, 3:
+			want := o.t0 + RT
+			if !isTimeout {
+				r.Violate(P, "timeout", "no-timeout-error", "mode %s: request %s sent at %v ended at %v with err=%v (closed without error: %v); expected a timeout error", r.Config["mode"], o.tag, o.t0, o.endAt, o.endErr, o.closedNil)
+			} else if o.endAt != want {
+				cls := "timeout-late"
+				if o.endAt < want {
+					cls = "timeout-early"
+				}
+				r.Violate(P, "timeout", cls, "mode %s: request %s sent at %v timed out at %v, expected exactly %v (read timeout %v)", r.Config["mode"], o.tag, o.t0, o.endAt, want, RT)
+			}
+			if len(o.pageAt) > 0 {
+				r.Violate(P, "timeout", "late-response-delivered", "mode %s: request %s received a page although none was due before its timeout", r.Config["mode"], o.tag)
+			}
+		case 1:
+			if len(o.pageAt) != pages {
+				r.Violate(P, "timeout", "failed-while-pages-arrive", "request %s: the peer sent %d pages %v apart (read timeout %v) but only %d arrived before the request ended at %v with err=%v", o.tag, pages, gap, RT, len(o.pageAt), o.endAt, o.endErr)
+				continue
+			}
+			want := o.pageAt[len(o.pageAt)-1] + RT
+			if !isTimeout {
+				r.Violate(P, "timeout", "no-timeout-error", "paged request %s ended at %v with err=%v; expected a timeout error after the last page", o.tag, o.endAt, o.endErr)
+			} else if o.endAt != want {
+				cls := "timeout-late"
+				if o.endAt < want {
+					cls = "timeout-early"
+				}
+				r.Violate(P, "timeout", cls, "paged request %s: last page at %v, timed out at %v, expected exactly %v", o.tag, o.pageAt[len(o.pageAt)-1], o.endAt, want)
+			}
+		case 2:
+			if len(o.pageAt) != 1 || o.endErr != nil {
+				r.Violate(P, "timeout", "failed-before-timeout", "request %s: the response arrived %v before the read timeout but the request ended with pages=%d err=%v", o.tag, eps, len(o.pageAt), o.endErr)
+			}
+		}
+		if o.endErr != nil && (!o.isDone || o.errAfter == nil) {
+			r.Violate(P, "request-complete", "failed-not-done", "request %s failed (%v) but IsDone=%v Err()=%v", o.tag, o.endErr, o.isDone, o.errAfter)
+		}
+	}
+	if r.Spec.Trace {
+		var l []string
+		for _, o := range all {
+			l = append(l, fmt.Sprintf("%s t0=%v pages=%v end=%v err=%v", o.tag, o.t0, o.pageAt, o.endAt, o.endErr != nil))
+		}
+		r.Sample = map[string]interface{}{"config": r.Config, "requests": l}
 	}
 }
